@@ -34,7 +34,7 @@ def prog (k : Nat) : List FI := (Gen.fmtProgs[k]?).getD []
 
 def realCfg : FCfg :=
   { prog := prog, htmlKind := Gen.fmtHtmlKind, nopKind := Gen.fmtNopKind, nopFields := Gen.fmtNopFields,
-    nopSemi := Gen.fmtNopSemi, tWs := Gen.fmtTWs, tOpenTag := Gen.fmtTOpenTag }
+    nopSemi := Gen.fmtNopSemi, tWs := Gen.fmtTWs, tOpenTag := Gen.fmtTOpenTag, tInc := Gen.fmtTInc, tDec := Gen.fmtTDec }
 
 /-- token.T_HALT_COMPILER -/
 def tHalt : Nat := 57394
